@@ -1883,6 +1883,11 @@ mod l2 {
         OtherSourceNode,
         /// session id of the other planted session in the header, body of this one
         OtherSessionId,
+        /// the header names another source node (S flag) and the nonce is built for that node
+        ForeignSourceInHeader { node: u64 },
+        /// the header names the genuine peer as source node (legal, rarely sent): must be accepted
+        /// exactly like the genuine message - used as an alteration it is a *fresh* genuine
+        /// message and therefore skipped in the "must be rejected" accounting
         /// exact replay of the accepted message
         Replay,
     }
@@ -1909,6 +1914,7 @@ mod l2 {
                 1 => Just(Alter::OppositeDirection),
                 1 => Just(Alter::OtherSourceNode),
                 1 => Just(Alter::OtherSessionId),
+                2 => prop_oneof![Just(0x1002u64), Just(1u64), Just(u64::MAX - 1), 2u64..0xffff_ffff_0000].prop_map(|node| Alter::ForeignSourceInHeader { node }),
             ]
         };
         (
@@ -1941,9 +1947,15 @@ mod l2 {
     }
 
     fn encode(key: &[u8; 16], nonce_node: u64, sess_id: u16, ctr: u32, exch: u16, reliable: bool, body: &[u8]) -> Option<Vec<u8>> {
+        encode_src(key, nonce_node, None, sess_id, ctr, exch, reliable, body)
+    }
+
+    #[allow(clippy::too_many_arguments)]
+    fn encode_src(key: &[u8; 16], nonce_node: u64, hdr_src: Option<u64>, sess_id: u16, ctr: u32, exch: u16, reliable: bool, body: &[u8]) -> Option<Vec<u8>> {
         let mut hdr = PacketHdr::new();
         hdr.plain.sess_id = sess_id;
         hdr.plain.ctr = ctr;
+        hdr.plain.set_src_nodeid(hdr_src);
         hdr.proto.exch_id = exch;
         hdr.proto.set_initiator();
         if reliable {
@@ -2030,6 +2042,10 @@ mod l2 {
                 Alter::OppositeDirection => encode(&k_out, peer_node, 0x0A01, c, 0x77, case.reliable, &body)?,
                 Alter::OtherSourceNode => encode(&k_in, peer_node ^ 0x55, 0x0A01, c, 0x77, case.reliable, &body)?,
                 Alter::OtherSessionId => encode(&k_in, peer_node, 0x0A02, c, 0x77, case.reliable, &body)?,
+                Alter::ForeignSourceInHeader { node } => {
+                    let node = if *node == peer_node { node.wrapping_add(1) } else { *node };
+                    encode_src(&k_in, node, Some(node), 0x0A01, c, 0x77, case.reliable, &body)?
+                }
                 Alter::Replay => genuine.clone(),
             })
         };
@@ -2118,6 +2134,7 @@ mod l2 {
             Alter::OppositeDirection => "opposite-direction",
             Alter::OtherSourceNode => "other-source-node",
             Alter::OtherSessionId => "other-session-id",
+            Alter::ForeignSourceInHeader { .. } => "foreign-source-in-header",
             Alter::Replay => "replay",
         }
     }
